@@ -204,6 +204,10 @@ pub fn run(tier: &str) -> i32 {
         vec![
             (Network::Regtest, 1, 5, vec![1, 2, 3]),
             (Network::Regtest, 2, 5, vec![1, 2, 3]),
+            // unevenly spaced difficulties: more distinct partial sums, so that
+            // mis-weighted branches fall between competitors
+            (Network::Regtest, 3, 5, vec![1, 2, 5]),
+            (Network::Regtest, 2, 6, vec![1, 4]),
         ]
     } else {
         vec![
